@@ -13,6 +13,12 @@ from vcheck import Machinery
 
 ENUM_VALS = [0, 1, 10, 7, 55]       # 7 and 55 are not declared enum values
 ENUM_NAMES = {0: 'Zero', 1: 'One', 10: 'Ten'}
+ENUM_NAMES_2 = {0: 'Nil', 1: 'Uno', 10: 'Deca'}       # a second enum type: other names for the same raw values
+
+
+def _names_of(c):
+    """the enum type of the field shown by column c (columns alternate between the two types)"""
+    return ENUM_NAMES_2 if c % 2 else ENUM_NAMES
 
 
 def cps(s):
@@ -34,9 +40,9 @@ def _plain_value(L, r, c):
     return s.strip() and s or 'x' * L
 
 
-def _enum_text(v, mod):
-    if v in ENUM_NAMES:
-        name, vl = ENUM_NAMES[v], 2
+def _enum_text(v, mod, names=ENUM_NAMES):
+    if v in names:
+        name, vl = names[v], 2
     else:
         name, vl = '<???>', max(2, len(str(v)))
     if mod == 'val':
@@ -72,7 +78,7 @@ def build(case):
                 v = ENUM_VALS[x % 5]
                 mod = col['kind'].split('/')[1] if '/' in col['kind'] else None
                 vals.append(v)
-                texts.append(_enum_text(v, mod))
+                texts.append(_enum_text(v, mod, _names_of(same.get(c, c))))
             elif col['brk']:
                 vals.append(x)
                 texts.append(str(x))
@@ -90,7 +96,8 @@ def build(case):
     for c, col in enumerate(cols):
         s = fields[c]
         if col['kind'] != 'plain':
-            ftypes[fields[c]] = PPEnumFieldType({0: 'Zero', 1: ('One', 'name_good'), 10: ('Ten', 'name_warn')})
+            nm = _names_of(same.get(c, c))
+            ftypes[fields[c]] = PPEnumFieldType({0: nm[0], 1: (nm[1], 'name_good'), 10: (nm[10], 'name_warn')})
             if '/' in col['kind']:
                 s += '/' + col['kind'].split('/')[1]
         if col['brk']:
@@ -124,7 +131,14 @@ def _other_table():
 def render(case):
     from ak.ppobj import PPTable
     records, kwargs, jc = build(case)
-    t = PPTable(records, **kwargs)
+    if kwargs['footer'] is not None and len(records) >= 2 and (len(records) + len(kwargs['fmt'])) % 4 == 2:
+        # the table is created over a list that gets its last record afterwards (t.records is the caller's list); with
+        # an explicit footer nothing in the printed table is a snapshot of the construction time
+        live = list(records[:-1])
+        t = PPTable(live, **kwargs)
+        live.append(records[-1])
+    else:
+        t = PPTable(records, **kwargs)
     if (len(records) + len(kwargs['fmt'])) % 3 == 0:
         # the same table built from a format object (another table's .fmt), as ak/mcaller_sql.py does
         src = t.fmt
